@@ -36,6 +36,7 @@ C cells
 4 0 -6 7 imp:n=1 imp:p=1 lat=1 u=2 fill=1
 5 0 5 imp:n=0 imp:p=0
 6 0 -6 7 imp:n=1 imp:p=1 lat=1 u=3 fill=0:1 0:0 0:0 1 2
+7 0 #3 8 imp:n=1 imp:p=1
 {extra_cells}
 C surfaces
 1 CZ 1.0
@@ -167,11 +168,66 @@ def build(tw, spec):
         return coll
     if t == "dict":
         return {}
+    if t == "geom":
+        return build_geom(tw, spec["g"])
     if t == "object":
         return object()
     if t == "enum":
         return {"SurfaceType": SurfaceType, "Lattice": montepy.data_inputs.lattice.Lattice, "Operator": montepy.geometry_operators.Operator}[spec["cls"]](spec["v"])
     raise AssertionError(t)
+
+
+def build_geom(tw, t):
+    """geometry tree spec -> HalfSpace, through the public operators / constructors"""
+    from montepy.surfaces.half_space import UnitHalfSpace
+
+    if "s" in t:
+        d = build(tw, t["s"])
+        return +d if t.get("side", True) else -d
+    if "c" in t:
+        return ~build(tw, t["c"])
+    if "raw" in t:
+        return UnitHalfSpace(build(tw, t["raw"]), bool(t["side"]), bool(t["cell"]))
+    if "and" in t:
+        return build_geom(tw, t["and"][0]) & build_geom(tw, t["and"][1])
+    if "or" in t:
+        return build_geom(tw, t["or"][0]) | build_geom(tw, t["or"][1])
+    if "not" in t:
+        return ~build_geom(tw, t["not"])
+    raise AssertionError(t)
+
+
+def geom_leaves(tw, t):
+    """(is_cell flag, divider object) per leaf of a geometry tree spec, left to right"""
+    if "s" in t:
+        return [(False, build(tw, t["s"]))]
+    if "c" in t:
+        return [(True, build(tw, t["c"]))]
+    if "raw" in t:
+        return [(bool(t["cell"]), build(tw, t["raw"]))]
+    for k in ("and", "or"):
+        if k in t:
+            return geom_leaves(tw, t[k][0]) + geom_leaves(tw, t[k][1])
+    if "not" in t:
+        return geom_leaves(tw, t["not"])
+    raise AssertionError(t)
+
+
+def lean_geom(tw, spec, cell):
+    """Val.geom of the model: text of the tree and its leaves as the validator of `cell` looks at them"""
+    from montepy.surfaces.surface import Surface
+
+    leaves, seen = [], []
+    for as_cell, d in geom_leaves(tw, spec["g"]):
+        kind = "cell" if isinstance(d, montepy.Cell) else "surface" if isinstance(d, Surface) else "other"
+        num = int(d) if isinstance(d, int) else int(getattr(d, "number", 0))
+        parent = cell.complements if as_cell else cell.surfaces
+        member = bool(d in parent) if kind != "other" else False
+        oid = next((i for i, o in enumerate(seen) if o is d), len(seen))
+        if oid == len(seen):
+            seen.append(d)
+        leaves.append({"asCell": as_cell, "kind": kind, "num": num, "member": member, "oid": oid})
+    return {"geom": {"text": str(build(tw, spec)), "leaves": leaves}}
 
 
 def rat(x):
@@ -286,6 +342,9 @@ def world(tw):
                 "fillHasUniverses": getattr(f, "_universes", None) is not None,
                 "fillTransform": f._transform.number if getattr(f, "_transform", None) is not None else None,
                 "fillHidden": bool(f.hidden_transform),
+                "geometry": str(c.geometry),
+                "complements": [x.number for x in c.complements],
+                "surfaces": [x.number for x in c.surfaces],
             }
         )
     surfaces = [
@@ -410,7 +469,31 @@ def written(p, tmpdir):
         return "!" + type(e).__name__
 
 
+# reads a rejected call is known to be able to change; they come out of the introspection of the public
+# properties (nothing is listed by hand in dump_object) — this guard only makes sure none of them gets lost
+_MUST_READ = {
+    "Cell": {"complements", "surfaces", "cells_complementing_this", "geometry", "universe", "fill", "importance"},
+    "Surface": {"cells", "surface_constants", "transform", "periodic_surface"},
+    "Material": {"cells", "material_components", "thermal_scattering"},
+    "Universe": {"cells", "number"},
+}
+_guarded = False
+
+
+def _guard_reads():
+    global _guarded
+    if _guarded:
+        return
+    classes = {"Cell": montepy.Cell, "Surface": montepy.surfaces.surface.Surface, "Material": montepy.data_inputs.material.Material, "Universe": montepy.Universe}
+    for name, want in _MUST_READ.items():
+        have = set(public_props(classes[name])) - SKIP_PROPS
+        if not want <= have:
+            raise mp.MachineryError(f"snapshot no longer reads {sorted(want - have)} of {name}")
+    _guarded = True
+
+
 def snapshot(tw, tmpdir, with_write=True):
+    _guard_reads()
     p = tw.p
     snap = {
         "mode": sorted(q.name for q in p.mode.particles),
@@ -467,4 +550,6 @@ def attr_of(path):
         return "written bytes"
     if parts and parts[0] == "extras":
         return "argument object"  # a free-standing object passed to the call, not (yet) part of the problem
+    if len(parts) > 2 and parts[-1] == "len":
+        parts = parts[:-1]  # a container attribute that grew or shrank: name the attribute, not "len"
     return ".".join(parts[:1] + parts[-1:]) if len(parts) > 1 else (parts[0] if parts else "")
